@@ -15,7 +15,7 @@
 
 enum { LT_EMPTY = 0, LT_INVALID, LT_COMMENT, LT_SECTION, LT_VALUE };
 #define ML_MAX   700
-#define ML_DATA  400
+#define ML_DATA  2800
 
 typedef struct mline {
 	int      type;
@@ -148,7 +148,7 @@ static void m_parse_text(const uint8_t *t, size_t n) {
 static int gen_value(uint8_t *out, int len, unsigned seed) {
 	static const char alpha[] = "abcXYZ019 =[];#._-/:";
 	unsigned x = seed * 2654435761u + 12345u;
-	if (len > 260) len = 260;
+	if (len > 2700) len = 2700;
 	for (int i = 0; i < len; i++) { x = x * 1103515245u + 12345u; out[i] = (uint8_t)alpha[(x >> 16) % (sizeof(alpha) - 1)]; }
 	/* a value may end in a carriage return of its own (only the CR of the line end belongs to the line end) */
 	if (len > 0 && (seed % 11u) == 3u) { out[len - 1] = '\r'; if (len > 1 && (seed % 22u) == 3u) out[len - 2] = '\r'; }
@@ -206,7 +206,7 @@ static size_t gen_text(uint8_t *out, size_t cap, unsigned seed, int nlines, int 
 }
 
 /* ------------------------------------------------------------------ oracle: compare the whole store with the model */
-static uint8_t g_buf1[ML_MAX * 64 + 4096], g_buf2[ML_MAX * 64 + 4096];
+static uint8_t g_buf1[ML_MAX * 64 + 4096 + 65536], g_buf2[ML_MAX * 64 + 4096 + 65536];
 
 static void check_lookup(const char *sect, const char *name, int icase) {
 	const uint8_t *v = NULL; size_t vs = 0;
@@ -350,7 +350,7 @@ static void do_op(const op_t *op, int idx) {
 		if (item_get(it, "dups", 0)) sim_probe("c17.parse_with_duplicates");
 	} else if (0 == strcmp(k, "set") || 0 == strcmp(k, "setg") || 0 == strcmp(k, "seti")) {
 		const char *sect = SECTS[item_get(it, "s", 0) % NSECT], *name = NAMES[item_get(it, "n", 0) % NNAME];
-		uint8_t val[300];
+		uint8_t val[2800];
 		int vl;
 		if (MN + 3 >= ML_MAX) return;
 		if (0 == strcmp(k, "setg")) {
@@ -359,7 +359,7 @@ static void do_op(const op_t *op, int idx) {
 			int base = cur >= 0 ? M[cur].val_len : 0;
 			vl = base + (int)item_get(it, "delta", 1);
 			if (vl < 0) vl = 0;
-			if (vl > 250) vl = 250;
+			if (vl > 2600) vl = 2600;
 			gen_value(val, vl, (unsigned)item_get(it, "seed", 1));
 			rc = ini_val_set(g_ini, (const uint8_t *)sect, strlen(sect), (const uint8_t *)name, strlen(name), val, (size_t)vl);
 		} else if (0 == strcmp(k, "seti")) {
@@ -370,7 +370,7 @@ static void do_op(const op_t *op, int idx) {
 			else { rc = ini_val_set_int(g_ini, (const uint8_t *)sect, 0, (const uint8_t *)name, strlen(name), (ssize_t)num); vl = snprintf((char *)val, sizeof(val), "%lld", num); }
 		} else {
 			vl = (int)item_get(it, "len", 3);
-			if (vl > 250) vl = 250;
+			if (vl > 2600) vl = 2600;
 			gen_value(val, vl, (unsigned)item_get(it, "seed", 1));
 			rc = ini_val_set(g_ini, (const uint8_t *)sect, strlen(sect), (const uint8_t *)name, strlen(name), vl ? val : (const uint8_t *)"", (size_t)vl);
 		}
@@ -435,6 +435,7 @@ static void do_op(const op_t *op, int idx) {
 static void c17_gen(plan_t *p, rng_t *r, int tier) {
 	int nops = (tier == TIER_QUICK) ? (int)rng_range(r, 2, 28) : (int)rng_range(r, 4, 60);
 	int faulty = rng_chance(r, 250);
+	int biglines = rng_chance(r, 120);
 	static const int lens[] = { 0, 1, 5, 14, 15, 16, 17, 30, 31, 32, 33, 47, 48, 49, 64, 100, 200, 250 };
 	item_set(&p->cfg, "faulty", faulty);
 	item_set(&p->cfg, "inplace", rng_chance(r, 500)); /* allocator front: realloc grows in place inside 16 byte granules / always moves */
@@ -458,6 +459,11 @@ static void c17_gen(plan_t *p, rng_t *r, int tier) {
 			item_set(&op->it, "s", (long long)rng_below(r, NSECT));
 			item_set(&op->it, "n", (long long)rng_below(r, NNAME));
 			item_set(&op->it, "len", lens[rng_below(r, sizeof(lens) / sizeof(lens[0]))]);
+			if (biglines && rng_chance(r, 450)) {
+				/* kilobyte values on two keys: long, short, long again - with other entries added in between */
+				item_set(&op->it, "s", 2); item_set(&op->it, "n", (long long)rng_below(r, 2));
+				item_set(&op->it, "len", rng_chance(r, 600) ? (long long)rng_range(r, 1040, 2600) : (long long)rng_range(r, 0, 300));
+			}
 			item_set(&op->it, "seed", (long long)rng_below(r, 1u << 30));
 		} else if (k < 70) {
 			/* runs of small in-place growths / shrinks of one key */
